@@ -30,6 +30,7 @@ def check(run):
     vlib.build_harnesses(specs)
     seqs = token_stream(rnd, 4 if thorough else 3, 60000 if thorough else 12000)
     valid = jsonchecks.valid_docs(rnd, 3000 if thorough else 600)
+    valid_c = jsonchecks.valid_docs(rnd, 1200 if thorough else 300, comments=True)   # texts with comments, for the configurations that enable them
     for cfg in cfgs:
         impl = vlib.need_harness("text_h", cfg)
         lines = ["J 10 - " + hx(s) for s in seqs]
@@ -38,6 +39,12 @@ def check(run):
         for t, text in valid:
             for _ in range(3):
                 muts.append(gen_json.mutate(rnd, text))
+        for t, text in valid_c:
+            muts.append(text)        # accepted when comments are enabled, refused at the comment otherwise
+            muts.append(gen_json.mutate(rnd, text))
+            cuts = [i + 1 for i in range(len(text)) if text[i:i + 1] in (b"*", b"/")]
+            for i in rnd.sample(cuts, min(3, len(cuts))):
+                muts.append(text[:i])
         ext = [b"{a:1}", b"{a_b1:'x'}", b"['x',\"y\"]", b"{'k':1}", b"[1,2]garbage", b"{\"a\":1}}", b"\"x\"y", b"true1", b"nullx",
                b"[1 2]", b"[1,]", b"[,1]", b"{,}", b"{\"a\"}", b"{\"a\":}", b"{:1}", b"[1,2", b"\"abc", b"{\"a\":1", b"[\"a", b"tru", b"nul", b"fals",
                b"+1", b"01", b"1.", b".5", b"1e", b"1e+", b"-", b"--1", b"1..2", b"0x10", b"1e5e5", b"NaN", b"nan", b"-NaN", b"Infinity", b"-Infinity", b"+inf",
